@@ -210,9 +210,29 @@ CHECKS = {
         "statement's antecedent and reported as out_of_scope. Tiny files (<= 20 samples, 4 channels).",
         "DESIGN.md section 3 C18",
     ),
+    "C20": (
+        "fault_enumeration",
+        "enumeration of every crash point of the recorded write history (call level; syscall level under strace) and every truncation length",
+        "For 12 writers x 6 gulps x 3 depths the real write history is recorded (class-level wrappers around FileWriter.write/cwrite with an "
+        "on-disk snapshot through a separate descriptor after every call) and every crash point after a write is materialised: it must start "
+        "with the complete final header, be a byte-prefix of the final file and an extension of the previous state, and FilReader must open it "
+        "and return exactly the first k samples; the file must be complete when the call returns (before any gc). Every byte-length truncation "
+        "of every final file from hdrlen upwards is opened and read the same way. thorough: the syscall history under strace -f is replayed into "
+        "a byte-array model (must equal the real file; no write below EOF, truncate or rename) and every state after a write syscall is checked.",
+        "Fault model: process death between writes (kernel buffers survive); no power-loss/fsync modelling. The empty file between open and "
+        "the header write is not judged. A writer that only delays whole blocks is prefix-consistent and is not flagged.",
+        "DESIGN.md section 3 C20",
+    ),
 }
 
 ENGINES = [
+    {
+        "name": "crashstates",
+        "path": "vf/props/c20.py",
+        "serves_properties": ["C20"],
+        "kind_free_text": "write-history capture (in-process call log with on-disk snapshots; strace syscall log replayed into a byte-array "
+        "model) and exhaustive enumeration of crash points and truncation lengths, each read back with the library's reader",
+    },
     {
         "name": "statespace",
         "path": "vf/props/c02.py, vf/props/c10.py, vf/props/c17.py (BFS drivers) + vf/core/engine.py",
@@ -245,7 +265,7 @@ def main() -> int:
                 "thorough_cmd": f"./check {pid} --tier thorough",
                 "evidence_file": f"/verif/evidence/{pid}.json",
                 "replay_cmd_template": f"./check {pid} --replay {{path}}",
-                "engine": "statespace" if cat == "model_checking" else "lattice",
+                "engine": "statespace" if cat == "model_checking" else "crashstates" if cat == "fault_enumeration" else "lattice",
                 "level_claimed": {"category": cat, "text": text, "design_ref": ref},
                 "level_note": note,
                 "technique": tech,
